@@ -6,6 +6,7 @@ import ChythonModel.Proofs.C02Rounds
 import ChythonModel.Proofs.C02Pairing
 import ChythonModel.Proofs.C02Writer
 import ChythonModel.Proofs.C02Closures
+import ChythonModel.Proofs.C02HeapBound
 /-!
 # C02 — SMILES write then read is lossless; canonical strings never collide
 
@@ -100,6 +101,25 @@ example :
   intro t ht
   simp only [List.mem_cons, List.not_mem_nil, or_false] at ht
   rcases ht with rfl | rfl | rfl | rfl <;> refine ⟨by decide, ?_⟩ <;> intro c <;> simp <;> omega
+
+/-- FULL statement "the closure-number allocator never fails".  FALSE (known finding `C02/closure-heap-exhausted`,
+    witness in `Findings/C02.lean`): the heap holds the numbers 1‥99 only. -/
+def AllocatorTotalFull : Prop :=
+  ∀ L : List (List Nat), cyclesWF [] [] L = true → ∃ c h, castSeq L [] initialHeap = .ok (c, h)
+
+/-- **heap_exhaustion_exact** (`_partial` of `AllocatorTotalFull` with the exact excluded class): on a well-formed
+    traversal the allocator succeeds iff at every closure atom (cycles open before it) + (cycles first seen on it) ≤ 99 —
+    a cycle closed on an atom still occupies its number while that atom's new cycles are numbered (delayed release) —
+    and otherwise the result is exactly Python's `IndexError` from `heappop` on the empty heap, never a wrong number. -/
+theorem heap_exhaustion_exact (L : List (List Nat)) (hwf : cyclesWF [] [] L = true) :
+    (peakOk 99 [] L = true → ∃ c h, castSeq L [] initialHeap = .ok (c, h)) ∧
+    (peakOk 99 [] L = false → castSeq L [] initialHeap = .error .indexError) :=
+  castSeq_indexError_iff L hwf
+
+/-- both sides of the boundary are inhabited: 99 simultaneously open cycles fit, a 100th does not -/
+example : cyclesWF [] [] ((List.range 99).map fun i => [i]) = true ∧ peakOk 99 [] ((List.range 99).map fun i => [i]) = true ∧
+    cyclesWF [] [] ((List.range 100).map fun i => [i]) = true ∧ peakOk 99 [] ((List.range 100).map fun i => [i]) = false := by
+  decide +kernel
 
 /-! ## 3. parentheses -/
 
